@@ -39,6 +39,15 @@ def rec(sig):
     return deco
 
 
+def defn(sig):
+    """Non-recursive definition kept as a named symbol: every ground application S.f(args) carries the fact
+    S.f(args) == body(args) (closed transitively, no fuel) -- keeps terms small where inlining would blow up."""
+    def deco(f):
+        f._pyvc = SpecMeta('defn', sig)
+        return f
+    return deco
+
+
 def uninterp(sig, facts=(), note=''):
     def deco(f):
         f._pyvc = SpecMeta('uninterp', sig, facts, note)
@@ -173,6 +182,18 @@ def call_spec(eng, fn, args, kwargs, st, node):
         app = smt.T(app.s, app.sort, app.syms, app.apps | frozenset([key]))
     argvals = [wrap(t, ty) for t, ty in zip(ts, meta.argtypes)]
     plain = smt.T(app.s, app.sort, app.syms)
+    if meta.kind == 'defn':
+        if not ground:
+            # under a binder the definition is simply inlined
+            return [(inline_spec(eng, fn, args, st, node), st)]
+        if key not in ctx.unfold:
+            def thunk_d():
+                from .symexec import State
+                body = inline_spec(eng, fn, argvals, State(), None)
+                bt = as_term(eng, body, meta.ret, State())
+                return Eq(plain, bt)
+            ctx.unfold[key] = ('fact', thunk_d)
+        return [(wrap(app, meta.ret), st)]
     if meta.kind == 'rec':
         if ground and key not in ctx.unfold:
             def thunk():
